@@ -181,6 +181,9 @@ def cons_truth(p, op):
     cv = p.const_value()
     if cv is not None:
         return _const_truth(cv.real, op)
+    mb = _monomial_bounds(p)
+    if mb is not None:
+        return _const_truth(mb[0], op)          # sign fixed by the declared variable bounds: no decision
     P = PATH
     if P is not None and P.policy.get("threshold") == "assume" and op in (">", ">=", "<", "<="):
         ctx = num.ctx()
@@ -228,6 +231,9 @@ def cons_truth(p, op):
             a = margin
             hi = Cons(p0.sub(Poly.const(a)), ">")       # p0 > margin   => p > 0
             lo = Cons(p0.add(Poly.const(a)), "<")       # p0 < -margin  => p < 0
+            mb = _monomial_bounds(p0)
+            if mb is not None and mb[1] > a:
+                return _const_truth(mb[0], op)      # |p0| > margin already follows from the variable bounds
             msg = f"threshold-assume: |{_short(p0)}| > {float(a):.3g} (sliver below a drop threshold excluded)"
             if msg not in P.assumptions:
                 P.assumptions.append(msg)
@@ -273,6 +279,7 @@ def compare(a, b, op):
         cv = d.const_value()
         if cv is not None:
             return (cv == 0) == (op == "==")
+        d = _snap_round_const(d)
         re, im = d.real(), d.imag()
         if not im.t:
             f = Cons(re, "==")
@@ -284,6 +291,63 @@ def compare(a, b, op):
     if not d.is_real():
         raise TypeError("ordering comparison of complex symbolic values")
     return cons_truth(d, op)
+
+
+def _snap_round_const(d):
+    """round(x, nd) is modelled as n/10^nd with an integer variable n, while Python's round returns the FLOAT
+    nearest to n/10^nd.  When such a value is compared (==, !=) with a float constant r (e.g. the rounded
+    parameter of a gate with a concrete angle), r is replaced by the decimal m/10^nd it denotes, so that the
+    comparison means n == m as it does in Python.  d = (+-1/scale)*n + const."""
+    tab = num.ctx().__dict__.get("_rounds")
+    if not tab or len(d.t) != 2 or num.ONE_M not in d.t:
+        return d
+    c = d.t[num.ONE_M]
+    for (k, vs), coef in d.t.items():
+        if vs and k == 0 and len(vs) == 1 and vs[0][1] == 1:
+            for (_x, n, scale) in tab.values():
+                if n == vs[0][0] and abs(coef) == 1 / scale:
+                    m = round(c * scale)
+                    if abs(c * scale - m) <= F(1, 1000):
+                        return Poly({(k, vs): coef, num.ONE_M: F(m) / scale}) if m else Poly({(k, vs): coef})
+    return d
+
+
+def _monomial_bounds(p):
+    """(sign, lower bound of |p|) for a single real monomial all of whose variables are kept away from zero by their
+    declared bounds (lo > 0, hi < 0, or info['absmin'] -- set by a harness together with the matching assumption -- for
+    even powers); None when not applicable.  The bounds are side constraints of every query, so this only saves queries."""
+    if len(p.t) != 1:
+        return None
+    (k, vs), c = next(iter(p.t.items()))
+    if k != 0 or not vs:
+        return None
+    ctx = num.ctx()
+    sign = 1 if c > 0 else -1
+    low = abs(c)
+    for v, e in vs:
+        if ctx.kind[v] != "real":
+            return None
+        info = ctx.info[v]
+        e = int(e)
+        lo, hi = info.get("lo"), info.get("hi")
+        if lo is not None and lo > 0:
+            sg, m, big = 1, lo, hi
+        elif hi is not None and hi < 0:
+            sg, m, big = -1, -hi, (-lo if lo is not None else None)
+        elif e % 2 == 0 and info.get("absmin"):
+            sg, m = 1, F(info["absmin"])
+            big = max(abs(lo), abs(hi)) if lo is not None and hi is not None else None
+        else:
+            return None
+        if e % 2:
+            sign *= sg
+        if e > 0:
+            low *= m ** e
+        elif big:
+            low *= F(1) / (big ** (-e))
+        else:
+            low = F(0)
+    return sign, low
 
 
 def _syntactic_nonneg(p):
